@@ -14,15 +14,20 @@ import (
 
 // SpecSort is a pseudo Go type for specification-only sorts (mathematical
 // integers, byte strings, ...).
-type SpecSort struct{ Name, Sort string }
+type SpecSort struct {
+	Name, Sort string
+	Elem       types.Type // Arr:T only
+}
+
+var arrSorts = map[string]*SpecSort{}
 
 func (s *SpecSort) Underlying() types.Type { return s }
 func (s *SpecSort) String() string         { return "spec:" + s.Name }
 
 var (
-	specInt   = &SpecSort{"int", "Int"}
-	specBool  = &SpecSort{"bool", "Bool"}
-	specBytes = &SpecSort{"Bytes", "Bytes"}
+	specInt   = &SpecSort{Name: "int", Sort: "Int"}
+	specBool  = &SpecSort{Name: "bool", Sort: "Bool"}
+	specBytes = &SpecSort{Name: "Bytes", Sort: "Bytes"}
 )
 
 type StructInfo struct {
